@@ -742,6 +742,14 @@ class Project:
     returns.  A local function's name is not part of any interface."""
     if name in outer.nested:
       return outer.nested[name]
+    # lifted to module level under the same name (give or take a leading
+    # underscore) and still used from inside `outer`
+    bare = name.lstrip('_')
+    used = {n.id for n in ast.walk(outer.node) if isinstance(n, ast.Name)}
+    lifted = [h for hn, h in outer.module.funcs.items()
+              if hn.lstrip('_') == bare and hn in used and h is not outer]
+    if len(lifted) == 1:
+      return lifted[0]
     cands = list(outer.nested.values())
     if len(cands) == 1:
       return cands[0]
